@@ -192,9 +192,18 @@ func genTemplate(r *rng) genCase {
 		b = appendRune(b, randomRune(r, algs[r.intn(4)]))
 	}
 	reps := 1 + r.intn(2)
+	// occasionally stretch one repeated token far beyond its nominal range: rules with "X*" and
+	// look-ahead loops are unbounded
+	stretch := -1
+	if r.chance(1, 8) {
+		stretch = r.intn(len(t.toks))
+	}
 	for ; reps > 0; reps-- {
-		for _, tok := range t.toks {
+		for ti, tok := range t.toks {
 			n := tok.min + r.intn(tok.max-tok.min+1)
+			if ti == stretch && tok.max > tok.min {
+				n = tok.max + 1 + r.intn(40)
+			}
 			for i := 0; i < n; i++ {
 				b = appendRune(b, pickRune(r, t.alg, tok.classes[r.intn(len(tok.classes))]))
 			}
